@@ -317,16 +317,26 @@ Theorem C07_subst_textual : forall doc env s, replace_fixer doc env (Textual s) 
 Proof. exact replace_fixer_textual. Qed.
 Print Assumptions C07_subst_textual.
 
-(* an unbound variable yields None, i.e. contributes the empty string in C07_subst *)
+(* a variable with no capture of its name (whatever the sigil: fix 648fad9) yields None, i.e. contributes
+   the empty string in C07_subst *)
 Theorem C07_subst_unbound : forall doc env v,
   match tv_kind v with
-  | KSingle => assoc (tv_name v) (e_single env) = None
-  | KMultiple => assoc (tv_name v) (e_multi env) = None
+  | KSingle => single_range env (tv_name v) = None /\ multi_range env (tv_name v) = None
+  | KMultiple => single_range env (tv_name v) = None /\ multi_range env (tv_name v) = None
+                 /\ assoc (tv_name v) (e_trans env) = None
   | KTransformed => assoc (tv_name v) (e_trans env) = None
   end ->
   maybe_get_var doc env v = None.
 Proof. exact maybe_get_var_unbound. Qed.
 Print Assumptions C07_subst_unbound.
+
+(* conversely an occurrence of a captured variable is always substituted, `$A`, `$$A` and `$$$A` alike *)
+Theorem C07_subst_bound : forall doc env v,
+  (single_range env (tv_name v) <> None \/ multi_range env (tv_name v) <> None) ->
+  tv_kind v <> KTransformed ->
+  maybe_get_var doc env v <> None.
+Proof. exact maybe_get_var_bound. Qed.
+Print Assumptions C07_subst_bound.
 
 Theorem C07_scanner_lengths : forall mc tr t fs vs,
   create_template mc tr t = WithMetaVar fs vs -> length fs = S (length vs).
